@@ -11,7 +11,12 @@ import time
 
 VERIF = os.path.dirname(os.path.dirname(os.path.abspath(__file__)))
 SPEC = os.path.join(VERIF, "spec")
-HARNESS = os.path.join(VERIF, "harness")
+# Development only (bin/audit): VERIF_SCRATCH=<dir> makes a run use <dir>/harness (a copy of the harness whose btdht
+# dependency points at a scratch copy of the repository) and write work files, evidence and replays under <dir>,
+# so that audits of seeded changes never touch /repo or /verif/evidence.  Registered checks never set it.
+SCRATCH = os.environ.get("VERIF_SCRATCH")
+OUT = SCRATCH or VERIF
+HARNESS = os.path.join(OUT, "harness")
 VH = os.path.join(HARNESS, "target", "release", "vh")
 TLA_CP = "/opt/veriftools/tla/tla2tools.jar:/opt/veriftools/tla/CommunityModules-deps.jar"
 
@@ -32,14 +37,14 @@ def seed():
 
 
 def workdir(pid):
-    d = os.path.join(VERIF, "work", pid)
+    d = os.path.join(OUT, "work", pid)
     shutil.rmtree(d, ignore_errors=True)
     os.makedirs(d, exist_ok=True)
     return d
 
 
 def replay_dir():
-    d = os.path.join(VERIF, "replays")
+    d = os.path.join(OUT, "replays")
     os.makedirs(d, exist_ok=True)
     return d
 
@@ -120,7 +125,7 @@ def tlc(spec_tla, cfg, workers=8, timeout=900, simulate=None, depth=None, seed_=
     """Run TLC on spec_tla (path relative to SPEC or absolute) with cfg."""
     spec_tla = spec_tla if os.path.isabs(spec_tla) else os.path.join(SPEC, spec_tla)
     cfg = cfg if os.path.isabs(cfg) else os.path.join(SPEC, cfg)
-    metadir = metadir or os.path.join(VERIF, "work", "tlc-%d-%d" % (os.getpid(), int(time.time() * 1000) % 100000000))
+    metadir = metadir or os.path.join(OUT, "work", "tlc-%d-%d" % (os.getpid(), int(time.time() * 1000) % 100000000))
     jopts = ["-XX:+UseParallelGC", "-Xmx" + heap, "-Xss1g", "-DTLA-Library=" + SPEC + os.pathsep + os.path.join(SPEC, "trace") + os.pathsep + os.path.join(SPEC, "mc")]
     if dfs:
         jopts.append("-Dtlc2.tool.queue.IStateQueue=StateDeque")
@@ -216,6 +221,58 @@ def validate_trace(trace_tla, cfg, trace_file, timeout=900, strict=None, heap="4
     return tv
 
 
+class TvMulti:
+    """Merged result of validating the chunks of one trace in parallel TLC processes."""
+    def __init__(self, parts, nlines, wall):
+        self.parts = parts
+        self.nlines = nlines
+        self.accepted = all(p.accepted for p in parts)
+        self.chkfails = [c for p in parts for c in p.chkfails]
+        self.drifts = [d for p in parts for d in p.drifts]
+        bad = [p for p in parts if not p.accepted]
+        self.rejected_at = bad[0].rejected_at if bad else None
+        self.rejected_file = bad[0].trace_file if bad else None
+        self.res = parts[0].res
+        self.res.wall = wall
+
+
+def split_trace(trace_file, nparts, marker='"ev":"Reset"'):
+    """Split an NDJSON trace at behaviour boundaries (Reset lines) into <= nparts files of similar size."""
+    lines = open(trace_file).read().splitlines(True)
+    starts = [i for i, ln in enumerate(lines) if marker in ln]
+    if not starts or starts[0] != 0:
+        starts = [0] + starts
+    target = max(1, len(lines) // nparts)
+    cuts, last = [0], 0
+    for s in starts[1:]:
+        if s - last >= target and len(cuts) < nparts:
+            cuts.append(s)
+            last = s
+    cuts.append(len(lines))
+    files = []
+    for k in range(len(cuts) - 1):
+        p = "%s.part%02d" % (trace_file, k)
+        with open(p, "w") as f:
+            f.writelines(lines[cuts[k]:cuts[k + 1]])
+        files.append(p)
+    return files
+
+
+def validate_trace_parallel(trace_tla, cfg, trace_file, nparts=8, timeout=1800, heap="3g"):
+    """Behaviours in a trace are independent (each starts with Reset): validate chunks concurrently."""
+    import concurrent.futures
+    t0 = time.time()
+    files = split_trace(trace_file, nparts)
+    def one(f):
+        tv = validate_trace(trace_tla, cfg, f, timeout=timeout, heap=heap)
+        tv.trace_file = f
+        return tv
+    with concurrent.futures.ThreadPoolExecutor(max_workers=len(files)) as ex:
+        parts = list(ex.map(one, files))
+    nlines = sum(p.nlines for p in parts)
+    return TvMulti(parts, nlines, time.time() - t0)
+
+
 # ------------------------------------------------------------------------------------- evidence
 
 def sha_file(path):
@@ -257,7 +314,7 @@ def write_evidence(pid, tier, level, coverage, assumptions, wall, violations):
         "wall_s": round(wall, 2),
         "violations": violations,
     }
-    d = os.path.join(VERIF, "evidence")
+    d = os.path.join(OUT, "evidence")
     os.makedirs(d, exist_ok=True)
     with open(os.path.join(d, pid + ".json"), "w") as f:
         json.dump(ev, f, indent=1, sort_keys=True)
